@@ -164,15 +164,23 @@ def run(rep: vlib.Reporter, tier: str, seed: int) -> None:
     cf_decisions: List[Any] = []
     mid_recs: List[Dict[str, Any]] = []
     n_mp = 0
+    # the planner-defect domains are decided in Coq (Model/PlanDefects.v classify_plan, related to the planner model by
+    # PlannerB_defects_sound_partial) on every exported plan, in one batch; the Python predicates are only counted next to them
+    from harness import planner_b
+    prepared: List[Any] = []
     for spec in specs:
         uni = Universe(spec, GateListener())
         try:
             sess = uni.prepare()
         except Exception:  # noqa: BLE001
             continue
-        plan = export_plan(sess, uni)
-        if kf_tfs_partial_requirement(plan) or kf_framework_roundtrip(plan) or kf_tfs_missing(plan):
+        prepared.append((spec, uni, sess, export_plan(sess, uni)))
+    doms = planner_b.classify([x[3] for x in prepared], rep_prefix="C08")
+    n_py_only = 0
+    for (spec, uni, sess, plan), dom in zip(prepared, doms):
+        if dom:
             continue            # runs of these plans already fail for the known planner defects (C01 findings)
+        n_py_only += bool(kf_tfs_partial_requirement(plan) or kf_framework_roundtrip(plan) or kf_tfs_missing(plan))
         base = run_observed(sess)
         if base["status"] != "ok":
             continue
@@ -237,7 +245,9 @@ def run(rep: vlib.Reporter, tier: str, seed: int) -> None:
     found |= f_mid
     dist: Dict[str, Any] = {"specs": len(specs), "cases": len(cases), "by_kind": {}, "by_mode": {}, "max_wall": 0.0,
                             "raised_with_message": 0, "plans_with_threading_cases": sum(1 for d in cf_decisions if d[2]),
-                            "plans_sync_only_unordered_conflicts": sum(1 for d in cf_decisions if not d[2])}
+                            "plans_sync_only_unordered_conflicts": sum(1 for d in cf_decisions if not d[2]),
+                            "plans_in_coq_defect_domains": sum(1 for d in doms if d),
+                            "plans_exercised_that_the_python_predicates_would_have_skipped": n_py_only}
     # the online decisions of the python mirror of conflict_free, re-validated by the Coq definition
     if cf_decisions:
         from harness.c01 import cq_foot, EXTRA as C01_EXTRA
